@@ -215,7 +215,12 @@ def handleCoordinator (c : Cluster) : Cluster × RespBody :=
 def setGroup (gs : List ((Bytes × Bytes × Int) × Int)) (k : Bytes × Bytes × Int) (v : Int) :=
   (k, v) :: gs.filter (fun e => e.1 != k)
 
-def handleCommit (c : Cluster) (node : Int) (group : Bytes) (topics : List (Bytes × List CommitPart)) : Cluster × RespBody :=
+/-- a group's offsets live in two independent stores: ZooKeeper's (what version 0 of OffsetCommit and OffsetFetch writes
+    and reads) and Kafka's own (version 1).  One association list holds both: the Kafka store's entries carry the group
+    name behind a byte (255) that no UTF-8 name contains. -/
+def storeGroup (version : Int) (g : Bytes) : Bytes := if version = 0 then g else 255 :: g
+
+def handleCommit (c : Cluster) (node : Int) (version : Int) (group : Bytes) (topics : List (Bytes × List CommitPart)) : Cluster × RespBody :=
   let (script, ss) := takeScript c.scripts 8
   let c := { c with scripts := ss }
   let base : Int := match script with
@@ -226,7 +231,7 @@ def handleCommit (c : Cluster) (node : Int) (group : Bytes) (topics : List (Byte
       let (fault, fs) := takeFault c.faults 8 t cp.partition
       let c := { c with faults := fs }
       let code := fault.getD (if base ≠ 0 then base else if (c.part? t cp.partition).isNone then 3 else 0)
-      let c := if code = 0 then { c with groups := setGroup c.groups (group, t, cp.partition) cp.offset } else c
+      let c := if code = 0 then { c with groups := setGroup c.groups (storeGroup version group, t, cp.partition) cp.offset } else c
       (c, (cp.partition, code))
     (c, (t, rs))
   (c, .offsetCommit ts)
@@ -241,7 +246,7 @@ def handleOffsetFetch (c : Cluster) (node : Int) (version : Int) (group : Bytes)
     let (c, rs) := mapParts c (reorder c.order ps) fun c p =>
       let (fault, fs) := takeFault c.faults 9 t p
       let c := { c with faults := fs }
-      let stored := (c.groups.find? (fun e => e.1 == (group, t, p))).map (·.2)
+      let stored := (c.groups.find? (fun e => e.1 == (storeGroup version group, t, p))).map (·.2)
       let code := fault.getD base
       if code ≠ 0 then (c, (p, (-1 : Int), some ([] : Bytes), code)) else
       match stored with
@@ -261,7 +266,7 @@ def handleBody (c : Cluster) (host : Bytes) (req : Request) : Cluster × Option 
     let (c, b) := handleProduce c node ts
     if acks = 0 then (c, none) else (c, some b)
   | .groupCoordinator _ => let (c, b) := handleCoordinator c; (c, some b)
-  | .offsetCommit g _ _ _ ts => let (c, b) := handleCommit c node g ts; (c, some b)
+  | .offsetCommit g _ _ _ ts => let (c, b) := handleCommit c node req.header.apiVersion g ts; (c, some b)
   | .offsetFetch g ts => let (c, b) := handleOffsetFetch c node req.header.apiVersion g ts; (c, some b)
 
 /-- the reply payload on the wire -/
